@@ -80,7 +80,7 @@ func runPairEnum(seed uint64, index int64, o hx.Opts) *hx.Result {
 	// the quick tier runs only some of the shards; which ones rotates with the base seed
 	seedOffset := uint64(o.Param["rot"]) % uint64(shards)
 	v := w.Run(func() {
-		v6Addrs = false
+		v6Addrs, tailTwin = false, false
 		rt.JumpClock(1)
 		var q int64
 		for _, pre := range prefixes {
